@@ -446,3 +446,46 @@ theorem parseBitVector_spec (s : String) : resultBits (parseBitVector s) = specL
 
 
 end Gatery.C18
+
+namespace Gatery.C18
+open Gatery.Gen
+
+/-- `formatRange` reads exactly the addressed bits: on the bit-array abstraction it is the specification (digit groups most significant
+    first, leading digit padded with zeros, `X` for a group holding an undefined bit of the range) — in particular it never looks at
+    the bit behind the range. -/
+theorem formatRange_abs (v d : Plane) (n base offset size : Nat) (hn : offset + size ≤ n) :
+    formatRange v d base offset size = specFormatRange (absPlane v n) (absPlane d n) base offset size := by
+  unfold formatRange specFormatRange
+  simp only
+  congr 1
+  apply List.map_congr_left
+  intro i _
+  have hbit : ∀ (p : Plane) (idx : Nat), idx < size → sBit (absPlane p n) (offset + idx) = bit p (offset + idx) := by
+    intro p idx h
+    rw [sBit_absPlane]
+    have : offset + idx < n := by omega
+    simp [this]
+  have hall : ∀ (l : List Nat),
+      (l.all fun idx => !(decide (idx < size)) || bit d (offset + idx)) =
+      (l.all fun idx => !(decide (idx < size)) || sBit (absPlane d n) (offset + idx)) := by
+    intro l
+    apply List.all_congr rfl
+    intro idx
+    by_cases h : idx < size
+    · simp [h, hbit d idx h]
+    · simp [h]
+  have hval : ∀ (l : List Nat) (a : Nat),
+      l.foldl (fun acc idx => 2 * acc + (if idx < size && bit v (offset + idx) then 1 else 0)) a =
+      l.foldl (fun acc idx => 2 * acc + (if idx < size && sBit (absPlane v n) (offset + idx) then 1 else 0)) a := by
+    intro l
+    induction l with
+    | nil => intro a; rfl
+    | cons x xs ih =>
+      intro a
+      simp only [List.foldl_cons]
+      by_cases h : x < size
+      · simp only [h, decide_true, Bool.true_and, hbit v x h]; exact ih _
+      · simp only [h, decide_false, Bool.false_and]; exact ih _
+  rw [hall, hval]
+
+end Gatery.C18
